@@ -35,7 +35,7 @@ SHARD_TIMEOUT = {'quick': 900, 'thorough': 3600}
 
 ROOT = os.path.dirname(os.path.dirname(os.path.dirname(os.path.abspath(__file__))))
 
-SPECIAL_CUSTOM = ['\\vv{a{b}c}', '\\vv{a{b', '\\vv|x|', '\\vv{', '\\vvb{x}{a{b}c}y', '\\vv{{{', 'a\\vv{x}b\\vv{p{q}r}c',
+SPECIAL_CUSTOM = ['\\tens^{a}_{b} and', 'x \\tens_{c}^{d} y', '\\tens^a', '\\tens z', '\\tens_b^c_d', '\\vv{a{b}c}', '\\vv{a{b', '\\vv|x|', '\\vv{', '\\vvb{x}{a{b}c}y', '\\vv{{{', 'a\\vv{x}b\\vv{p{q}r}c',
                   '\\vvb{\\vv{u{v}w}}{z}', '\\txt{a $b$ c}', '$\\txt{a}$', '\\begin{mathenv}x\\end{mathenv}']
 SPECIAL_DEFS = ['\\defmacro{foo} \\foo{x} y', 'Here \\foo{x} is not defined.', '{\\defmacro{bar}\\bar{1}} \\bar{2}',
                 '\\defmacro{foo}\\defmacro{baz}\\baz{\\foo{q}}r', '\\baz{a}{b}', '\\begin{fooenv}[o]x\\end{fooenv}',
@@ -179,7 +179,7 @@ def run_shard(desc, rec):
             docs = docs[:4] + list(SPECIAL_DEFS)
             rec.monitor('context_extending_documents', len(SPECIAL_DEFS))
         else:
-            docs += rng.sample(SPECIAL_CUSTOM if desc['vocab'] == 'custom' else SPECIAL_DEFAULT, 5)
+            docs += rng.sample(SPECIAL_CUSTOM if desc['vocab'] == 'custom' else SPECIAL_DEFAULT, 8)
         # some documents broken on purpose (they fail in strict mode / recover in tolerant mode)
         for _ in range(3):
             s = rng.choice(docs)
